@@ -136,12 +136,15 @@ func vfcfLog(class string) *LogConfig {
 }
 
 func vfcfRLC(class string) *RateLimiterConfig {
-	if class != "r1" {
-		return nil
+	switch class {
+	case "r1":
+		c := DefaultRateLimiterConfig()
+		c.GlobalRequestsPerSecond = 777
+		return &c
+	case "r2": // a partially filled struct: New() keeps such a struct as it is given
+		return &RateLimiterConfig{GlobalRequestsPerSecond: 555}
 	}
-	c := DefaultRateLimiterConfig()
-	c.GlobalRequestsPerSecond = 777
-	return &c
+	return nil
 }
 
 func vfcfMaxFS(class string) int64 {
@@ -271,6 +274,8 @@ func vfcfProject(o, ref ExportOptions) (M, M) {
 			rl = "def"
 		case o.RateLimitConfig.GlobalRequestsPerSecond == 777:
 			rl = "r1"
+		case *o.RateLimitConfig == RateLimiterConfig{GlobalRequestsPerSecond: 555}:
+			rl = "r2"
 		default:
 			rl = "other"
 		}
@@ -415,21 +420,83 @@ func vfcfRun(t testing.TB, hist int, vec vfcfVector, ref ExportOptions, emit fun
 	in := vfcfNewInst(t, vfcfExportOptions(cons))
 	defer in.env.Close()
 	cfg, conc := vfcfProject(in.env.n.GetExportOptions(), ref)
-	emit(M{"ev": "reset", "hist": hist, "ti": vec.Steps[0].TI, "u": cons, "rejected": false, "err": "", "cfg": cfg, "ts": conc["TransferSize"],
+	emit(M{"ev": "reset", "hist": hist, "ti": vec.Steps[0].TI, "u": cons, "rejected": false, "hung": false, "err": "", "cfg": cfg, "ts": conc["TransferSize"],
 		"inforce": in.inforce(ref), "io": in.probes()})
-	for _, st := range vec.Steps[1:] {
-		err := vfcfApply(in.env.n, st.U)
+	step := func(ti int, u vfcfUpd) (M, bool, bool) {
+		err, hung := vfcfApplyWatched(in.env.n, u)
 		es := ""
 		if err != nil {
 			es = err.Error()
 			nonPlain = true
 		}
+		if hung {
+			es = "update call did not return within the watchdog time"
+			vfcfHangs++
+		}
 		cfg, conc = vfcfProject(in.env.n.GetExportOptions(), ref)
-		emit(M{"ev": "upd", "hist": hist, "ti": st.TI, "u": st.U, "rejected": err != nil, "err": es, "cfg": cfg, "ts": conc["TransferSize"],
-			"inforce": in.inforce(ref), "io": in.probes()})
+		io := in.probes()
+		emit(M{"ev": "upd", "hist": hist, "ti": ti, "u": u, "rejected": err != nil, "hung": hung, "err": es, "cfg": cfg, "ts": conc["TransferSize"],
+			"inforce": in.inforce(ref), "io": io})
+		return io, hung, err != nil
+	}
+	for _, st := range vec.Steps[1:] {
+		io, hung, rejected := step(st.TI, st.U)
+		if hung {
+			return nonPlain // every later update call on this instance would block as well
+		}
+		wedged := func(io M) bool {
+			// the server answers as if a policy drain never ended; that is on record, and the hang of the
+			// next update call has been observed twice in this run already: stop this history here
+			return io["lookup"] == "JUKEBOX" && vfcfHangs >= 2
+		}
+		if wedged(io) {
+			return nonPlain
+		}
+		if rejected {
+			// serviceability after a rejected update: besides the three requests just issued, a further
+			// update that must be accepted (the policy in force, written back through UpdatePolicyOptions)
+			io, hung, _ = step(-1, vfcfSamePolicy(cfg))
+			if hung || wedged(io) {
+				return nonPlain
+			}
+		}
 	}
 	return nonPlain
 }
+
+// vfcfSamePolicy is an UpdatePolicyOptions call that restates the policy in force.
+func vfcfSamePolicy(cfg M) vfcfUpd {
+	u := vfcfUpd{Kind: "policy", N: map[string]string{}, TP: "keep", T: map[string]string{}, Log: "keep", RLC: "nil",
+		RO: cfg["ro"].(string), MaxFS: cfg["maxfs"].(string), Squash: "same"}
+	if r, _ := cfg["rlc"].(string); r == "r1" || r == "r2" {
+		u.RLC = r
+	}
+	for _, f := range vfcfNF {
+		u.N[f] = "keep"
+	}
+	for _, f := range vfcfTF {
+		u.T[f] = "keep"
+	}
+	return u
+}
+
+// vfcfHangs counts update calls that did not return (run-wide).
+var vfcfHangs int
+
+// vfcfApplyWatched performs the update under a watchdog: an update call that does not return is an
+// observation (the goroutine is abandoned), not a harness failure.
+func vfcfApplyWatched(n *AbsfsNFS, u vfcfUpd) (error, bool) {
+	ch := make(chan error, 1)
+	go func() { ch <- vfcfApply(n, u) }()
+	select {
+	case err := <-ch:
+		return err, false
+	case <-time.After(vfcfWatchdog):
+		return nil, true
+	}
+}
+
+const vfcfWatchdog = 6 * time.Second
 
 func vfcfReadVectors(t testing.TB) []vfcfVector {
 	p := os.Getenv("VF_CFG_VECTORS")
@@ -566,7 +633,7 @@ func TestVF_ConfigChild(t *testing.T) {
 	}
 	in := vfcfNewInst(t, vfcfExportOptions(blank))
 	cfg, conc := vfcfProject(in.env.n.GetExportOptions(), ref)
-	reset := M{"ev": "reset", "hist": 0, "ti": 0, "u": blank, "rejected": false, "err": "", "cfg": cfg, "ts": conc["TransferSize"], "inforce": in.inforce(ref), "io": in.probes()}
+	reset := M{"ev": "reset", "hist": 0, "ti": 0, "u": blank, "rejected": false, "hung": false, "err": "", "cfg": cfg, "ts": conc["TransferSize"], "inforce": in.inforce(ref), "io": in.probes()}
 	var u vfcfUpd
 	switch kind {
 	case "export":
@@ -594,7 +661,7 @@ func TestVF_ConfigChild(t *testing.T) {
 		io["lookup"] = in.env.Do(NFSPROC3_LOOKUP, vfArgsDirOp(in.root, "big"), vfRoot).StatusName()
 	}
 	io[probe] = "pending"
-	line := M{"ev": "upd", "hist": 0, "ti": 0, "u": u, "rejected": err != nil, "err": es, "cfg": cfg, "ts": conc["TransferSize"], "inforce": in.inforce(ref), "io": io, "reset": reset}
+	line := M{"ev": "upd", "hist": 0, "ti": 0, "u": u, "rejected": err != nil, "hung": false, "err": es, "cfg": cfg, "ts": conc["TransferSize"], "inforce": in.inforce(ref), "io": io, "reset": reset}
 	write := func() {
 		b, _ := json.Marshal(line)
 		os.WriteFile(os.Getenv("VF_CFG_CHILD_OUT"), b, 0644)
